@@ -8,7 +8,7 @@ PATCH="$1"; PROP="$2"; TIER="${3:-quick}"
 NAME=$(basename "$(dirname "$PATCH")")
 W=/dev/shm/eyecite-mut-$$-$NAME
 rm -rf "$W"; mkdir -p "$W/out"
-git -C /repo archive HEAD | tar -x -C "$W" --one-top-level=repo
+git -C /repo archive ${REPO_REV:-HEAD} | tar -x -C "$W" --one-top-level=repo
 if ! git -C "$W/repo" apply --unsafe-paths "$PATCH" 2>/dev/null; then
   (cd "$W/repo" && patch -p1 -s < "$PATCH") || { echo "PATCH-FAILED $PATCH"; rm -rf "$W"; exit 3; }
 fi
